@@ -736,6 +736,12 @@ func (hs *clientHandshakeState) doFullHandshake() error {
 		//
 		// See https://mitls.org/pages/attacks/3SHAKE for the
 		// motivation behind this requirement.
+		// [uTLS] a session injected without certificates (MakeClientSessionState)
+		// was resumed: there is no earlier identity to hold the server to
+		if len(c.peerCertificates) == 0 {
+			c.sendAlert(alertBadCertificate)
+			return errors.New("tls: server's identity is not known from the resumed session, refusing to renegotiate")
+		}
 		if !bytes.Equal(c.peerCertificates[0].Raw, certMsg.certificates[0]) {
 			c.sendAlert(alertBadCertificate)
 			return errors.New("tls: server's identity changed during renegotiation")
